@@ -318,3 +318,91 @@ for _n in range(0, 34):
         _pkcs(vc, _n)
     proof("C16/PKCS7[len=%d]" % _n, functions=[(UTIL, "append_PKCS7_padding"), (UTIL, "strip_PKCS7_padding")],
           family=fam_pkcs(_n), thorough_only=_n not in (0, 1, 15, 16, 17, 31, 32, 33))(_p)
+
+
+# ---------------------------------------------------------------------------------------
+# BlockFeeder.feed - UNBOUNDED: any buffered rest (0..31 bytes), any amount of new data, one loop contract
+
+def _feeder(vc, kind, seg):
+    """mode = a ghost mode of the given kind whose encrypt is the identity and which checks the chunk it is handed:
+    what feed returns is then exactly the sequence of chunks handed to the mode, in order.
+      post: returned ++ new buffer == old buffer ++ data (nothing lost, repeated or reordered); every chunk is legal for
+            the mode (exactly 16 bytes / a multiple of the segment size / any); the new buffer keeps at least the last
+            16 bytes back for _final whenever more than 16 were available and is shorter than 16 + unit;
+            termination (variant = len(buffer))."""
+    F = vc.module(FEED)
+    M = vc.module(MOD)
+    unit = {"block": 16, "segment": seg, "stream": 1}[kind]
+    nb = vc.int("nb", 0, 15 + unit)
+    N = vc.int("N", 0, 1 << 24)
+    T = nb + N
+    W = vc.bytes("W", T)
+    buf, data = W[:nb], W[nb:]
+    bad = []
+    base = {"block": M.AESBlockModeOfOperation, "segment": M.AESSegmentModeOfOperation, "stream": M.AESStreamModeOfOperation}[kind]
+
+    class GhostMode(base):
+        segment_bytes = seg
+
+        def __init__(self):
+            pass
+
+        def encrypt(self, chunk):
+            n = vc.len(chunk)
+            ok = (n == 16) if kind == "block" else (n % unit == 0)
+            if vc.symbolic:
+                if not (ok if isinstance(ok, bool) else vc.ctx.valid(ok.t)):
+                    bad.append("illegal chunk length for a %s mode" % kind)
+            elif not ok:
+                bad.append(n)
+            return chunk
+
+    mode = GhostMode()
+    fd = F.BlockFeeder(mode, mode.encrypt, mode._final_encrypt, F.PADDING_DEFAULT)
+    fd._buffer = buf
+    if vc.symbolic:
+        def hv_self(L):
+            L.self._buffer = W[L.c:]
+            return L.self
+
+        def nxt(L):
+            avail = T - L.c - 16
+            step = {"block": 16, "stream": avail, "segment": (avail // seg) * seg}[kind]
+            return dict(c=L.c + step)
+
+        vc.loop(FEED, "BlockFeeder.feed", 0, ghost_init=dict(c=0), ghost_next=nxt,
+                havoc=dict(self=hv_self, result=lambda L: W[:L.c]),
+                inv=lambda L: [("ghost-range", vc.And(0 <= L.c, L.c <= T, L.c % unit == 0)),
+                               ("the-last-16-bytes-stay-behind", vc.Or(L.c == 0, T - L.c >= 16)),
+                               ("buffer=unconsumed-rest", L.self._buffer == W[L.c:]),
+                               ("result=consumed-prefix", L.result == W[:L.c])],
+                variant=lambda L: core.toint(vc.len(L.self._buffer)))
+    out = vc.call(fd.feed, data)
+    vc.prove("returns", out.returned, repr(out.exc))
+    if not out.returned:
+        return
+    res, rest = out.value, fd._buffer
+    vc.prove("post.returned++buffer==old-buffer++data", vc.cat(res, rest) == W)
+    vc.prove("post.only-legal-chunks", vc.And(vc.len(res) % unit == 0, not bad), repr(bad))
+    vc.prove("post.buffer<16+unit", vc.len(rest) < 16 + unit)
+    vc.prove("post.last-16-bytes-held-back", vc.Or(T < 16 + unit, vc.len(rest) >= 16))
+    vc.cover("fed")
+
+
+def fam_feed(kind, seg):
+    def fam(seed, tier):
+        import random
+        rnd = random.Random(seed + seg)
+        unit = {"block": 16, "segment": seg, "stream": 1}[kind]
+        for nb in sorted({0, 1, 15, 14 + unit, 15 + unit} & set(range(0, 16 + unit))):
+            for N in (0, 1, 15, 16, 17, 31, 32, 33, 47, 48, 49, 100, 1000):
+                yield dict(nb=nb, N=N, W=bytes(rnd.randrange(256) for _ in range(nb + N)))
+    return fam
+
+
+for _kind, _seg in (("block", 16), ("stream", 1), ("segment", 1), ("segment", 8), ("segment", 16)):
+    def _p(vc, _kind=_kind, _seg=_seg):
+        _feeder(vc, _kind, _seg)
+    proof("C16/BlockFeeder.feed[%s%s]" % (_kind, "-%d" % _seg if _kind == "segment" else ""),
+          functions=[(FEED, "BlockFeeder.feed"), (FEED, "BlockFeeder.__init__"),
+                     (FEED, "_%s_can_consume" % _kind)], family=fam_feed(_kind, _seg))(_p)
